@@ -122,3 +122,29 @@ def unit_functions(cr, root, module_prefixes, depth=2):
             if t["fn"].get("local") and c in cr.fns and c.startswith(tuple(module_prefixes)) and not cr.fns[c].get("file", "").endswith("_tests.rs"):
                 work.append((c, d + 1))
     return out
+
+
+def backward_slice_ip(cr, f, start_local, depth=2, stop=None):
+    """backward_slice that descends into local (crate-defined) callees found on the slice: their return value's slice is added, so a
+    computation extracted into a private helper is seen exactly as when it is written in place.
+    Returns (calls, casts): calls = [(body_key, call term)], casts = [(cast kind, target type string)] over all bodies visited."""
+    out_calls, out_casts = [], []
+    seen = set()
+
+    def visit(body, local, d):
+        calls, consts, locs = backward_slice(body, local, stop=stop)
+        for bi, si, st in M.iter_stmts(body):
+            rv = st.get("rv")
+            if rv and rv["r"] == "cast" and isinstance(st["p"], int) and st["p"] in locs:
+                out_casts.append((rv["ck"], cr.ty_str(rv["ty"])))
+        for c in calls:
+            key = c["fn"].get("key", "")
+            callee = cr.fns.get(key) if c["fn"].get("local") else None
+            if callee is not None and callee.get("kind") in ("fn", "assoc", "closure") and d < depth and (key, 0) not in seen:
+                seen.add((key, 0))
+                out_calls.append((body.get("key"), c, True))
+                visit(callee, 0, d + 1)
+            else:
+                out_calls.append((body.get("key"), c, False))
+    visit(f, start_local, 0)
+    return out_calls, out_casts
